@@ -57,11 +57,36 @@ def gen(ctx, rng, per_solver):
     return cases
 
 
-def judge(ctx, cases):
+def slivers(rng, cases, times, per_solver):
+    """second pass: the end time is moved to just beyond a point the solver lands on by itself, so that the clipped
+    final step is a sliver far shorter than the minimum step (it must simply be taken: the run is finished)"""
+    out = []
+    for solver in ivpgen.ADAPTIVE:
+        pool = [c for c in cases if c["solver"] == solver and len(times.get(c["id"], [])) >= 5]
+        rng.shuffle(pool)
+        for c in pool[:per_solver]:
+            ts = times[c["id"]]
+            tk = ts[rng.randint(1, len(ts) - 2)]
+            dtmax = vlib.pair_to_float(c["dtmax"])
+            dtmin = dtmax * 10.0 ** (-rng.randint(5, 7))
+            t1 = tk + dtmin * rng.uniform(0.02, 0.2)
+            if not t1 > tk:
+                continue
+            n = dict(c)
+            n.update(t1=vlib.float_to_pair(t1), dtmin=vlib.float_to_pair(dtmin), sliver=True)
+            out.append(n)
+    return out
+
+
+def judge(ctx, cases, base=0):
     for k, c in enumerate(cases):
-        c["id"] = k + 1
+        c["id"] = base + k + 1
     byid = {c["id"]: c for c in cases}
     events = ivpcommon.harness_runs(ctx, cases, nproc=12)
+    times = {}
+    for e in events:
+        if e["ev"] == "item":
+            times.setdefault(e["c"], []).append(vlib.pair_to_float(e["t"]))
     stats = ivpcommon.run_stats(events)
     # the validator only needs times: drop state vectors of items except dimension
     slim = []
@@ -85,6 +110,10 @@ def judge(ctx, cases):
     for r, s, calls, items in ratios:
         if r > worst.get(s, (0,))[0]:
             worst[s] = (round(r, 2), calls, items)
+    old = ctx.notes.get("worst_work_ratio_per_solver", {})
+    for k2, v in old.items():
+        if k2 not in worst or tuple(v)[0] > worst[k2][0]:
+            worst[k2] = tuple(v)
     ctx.notes["worst_work_ratio_per_solver"] = worst
     for c in cases[:: max(1, len(cases) // 4)][:4]:
         st = stats[c["id"]]
@@ -94,14 +123,19 @@ def judge(ctx, cases):
         for name in conj:
             if name in CONJ:
                 ctx.violation(c["solver"], name, ivpcommon.case_brief(c), {"event": vlib.decode(ev)})
+    return times
 
 
 def run(ctx):
     rng = random.Random(ctx.seed)
     cases = gen(ctx, rng, 12 if ctx.tier == "quick" else 80)
-    judge(ctx, cases)
+    times = judge(ctx, cases)
+    sl = slivers(rng, cases, times, 8 if ctx.tier == "quick" else 60)
+    judge(ctx, sl, base=len(cases))
+    ctx.notes["sliver_final_step_cases"] = len(sl)
     ctx.rule = ("6 adaptive solvers x smooth block systems (incl. solutions at rest and relaxing) x tol 1e-3..1e-9 x dtmin <= 1e-6 dtmax; "
-                "a run is non-trivial when tol^(-1/p)*dtmax >= 4 (the estimator, not the step cap, sets the work) and it completed")
+                "a run is non-trivial when tol^(-1/p)*dtmax >= 4 (the estimator, not the step cap, sets the work) and it completed; second pass: "
+                "the same problems with the end moved to 0.02-0.2 dtmin beyond a point the solver lands on (sliver final step)")
     ctx.assumptions += ["work bound constant KW = 100 is wide by design: it separates 10^3-fold defects from honest variation",
                         "termination / MinimumTimeDeltaExceeded-only-below-minimum for every verdict sequence is model-checked in "
                         "MC_IvpProtocol (run by the C01 check)"]
